@@ -194,7 +194,7 @@ def harness_lines(rng, g, want_all=True):
     gt = gen.graph_tokens(g)
     tot = sum(w for _, _, w in g[1])
     lines = ["M D 0 all " + gt]
-    if 2 * tot < INT_LIMIT and rng.random() < 0.5: lines.append("M I 0 all " + gt)
+    if gen.int_domain_ok(g) and rng.random() < 0.5: lines.append("M I 0 all " + gt)
     if rng.random() < 0.3: lines.append("M D %d all %s" % (rng.choice([-3, -20, 5, 30, -60, -200, -300, 100, 300]), gt))   # all exact: powers of two, no over/underflow
     return lines
 
@@ -427,7 +427,7 @@ def replay(path):
     bad = None
     def runs(gr):
         gt = gen.graph_tokens(gr); ls = ["M D 0 all " + gt]
-        if 2 * sum(w for _, _, w in gr[1]) < INT_LIMIT: ls.append("M I 0 all " + gt)
+        if gen.int_domain_ok(gr): ls.append("M I 0 all " + gt)
         ls += [l for l in r.get("runs", []) if l not in ls and l.split()[4:] == gt.split()]
         vals, problem = graph_values(ls, lib.run_lines([exe], ls, par=1))
         print("graph:", gt[:300]); print("  values:", " ".join("%s=%d" % (a, v) for a, v, _ in vals), "" if not problem else "PROBLEM " + problem)
